@@ -94,12 +94,14 @@ def parse_output(out):
 _cache = {}
 
 
-def run_package(package, harnesses, timeout=3600, jobs=4):
+def run_package(package, harnesses, timeout=3600, jobs=4, features=None):
     key = (package, tuple(sorted(harnesses)))
     if key in _cache:
         return _cache[key]
     sync()
     cmd = ["cargo", "kani", "-p", package] + FLAGS
+    if features:
+        cmd += ["--features", features]
     for h in harnesses:
         cmd += ["--harness", h]
     if len(harnesses) > 1:
@@ -127,7 +129,7 @@ def run_harness(h):
     res = {"harness": h["harness"], "unit": h["harness"], "failed": [], "undecided": [], "bounded": h.get("bounded", False), "bound": h.get("bound"),
            "functions": h.get("functions", []), "trusted": h.get("trusted", []), "assumptions": h.get("assumptions", []), "checks": 0, "checks_ok": 0}
     try:
-        pr = run_package(h["package"], names, timeout=h.get("timeout", 3600))
+        pr = run_package(h["package"], names, timeout=h.get("timeout", 3600), features=h.get("features"))
     except FileNotFoundError as e:
         res["undecided"].append({"message": "lost anchor: %s" % e})
         return res
@@ -189,8 +191,11 @@ def replay(d):
 
 if __name__ == "__main__":
     pkg = sys.argv[1]
+    feats = None
+    if ":" in pkg:
+        pkg, feats = pkg.split(":")
     hs = sys.argv[2:]
-    r = run_package(pkg, hs)
+    r = run_package(pkg, hs, features=feats, timeout=int(os.environ.get("KX_TIMEOUT", "900")))
     print(r["cmd"], r["rc"], r["wall_s"])
     for k, v in r["per"].items():
         print(k, "OK" if v["ok"] else "FAILED", v.get("n_failed"), v.get("n_checks"), v.get("covers_sat"), v.get("covers"), v.get("time_s"))
